@@ -148,6 +148,8 @@ def build_task(job):
         data["callfile"] = job["_callfile"]
     if job.get("delay"):
         data["delay"] = job["delay"]
+    if job.get("scribble"):
+        data["scribble"] = True
     if job.get("derive_from"):
         # a task derived from an already USED task of the same shape (model_copy keeps pydantic private state): multi-step history
         base = gen.make_task(job["derive_from"], job["objective"], data=dict(data), **kw)
@@ -246,6 +248,17 @@ def run_traced(job, opt=None):
             gen.CALL_LOGS[id(calls)] = calls
     try:
         task = build_task(job)
+        if opt is None and job.get("reconfigure_from") is not None:
+            # multi-step history: the instance is built and run under ANOTHER configuration, then given the judged one through the
+            # public set_config_parameters (as HyperTuner does); nothing derived from the first configuration may survive
+            target = optimizers.make(job["name"], **job.get("cfg", {}))
+            opt = optimizers.make(job["name"], **job["reconfigure_from"])
+            try:
+                with contextlib.redirect_stdout(io.StringIO()):
+                    opt.optimize(build_task(job), mode=mode, workers=job.get("workers"))
+            except Exception:  # noqa — the first run's own outcome is not what is being judged
+                pass
+            opt.set_config_parameters(json.loads(target._config.model_dump_json()))
         if opt is None:
             opt = optimizers.make(job["name"], **job.get("cfg", {}))
     except Exception as e:  # construction problems are reported, not raised
